@@ -32,4 +32,11 @@ theorem holds_short_line_record (E : Ext) (n : Nat) (y rest : Bytes) (st : State
 theorem holds_stdout_always_drained (stream : Bytes) : Scanner.consumes Facts.drain stream = true :=
   stdout_always_drained _ drain_facts_good stream
 
+/-- the stderr reader's loop ends only on a read error at the current source -/
+theorem reader_good : Facts.stderrReader.Good := by decide
+
+theorem holds_stderr_taken_all (sinkFails : Nat → Bool) (lines : Nat) :
+    LogLine.stderrTaken Facts.stderrReader sinkFails lines 0 = lines :=
+  stderr_taken_all _ reader_good sinkFails lines 0
+
 end GoPlugin.Instance.C10
